@@ -308,7 +308,7 @@ end subroutine lv_p
 """
 _U_SRC = """
 module lv_u
-  use lv_tm, only: lv_h
+  use lv_tm
   implicit none
 contains
   subroutine lv_r(a)
@@ -378,7 +378,7 @@ def known_defects():
         d['procedure-link-dropped'] = (pickle.loads(pickle.dumps(pr)) != pr)
     except Exception:  # noqa
         d['procedure-link-dropped'] = True
-    # a module procedure calls a routine that the module imports; enrich() types the import but leaves the call name an
+    # a module procedure calls a routine that the module imports by an unqualified USE; enrich() types the import but leaves the call name an
     # unattached deferred symbol; __setstate__ -> rescope_symbols() attaches and resolves it, so the copy != the original
     um = Sourcefile.from_source(_U_SRC)['lv_u']
     um.enrich(list(Sourcefile.from_source(_T_SRC).definitions), recurse=True)
